@@ -42,7 +42,9 @@ def instances(tier, seed):
               {'fam': 'Q1'}, {'fam': 'W1', 'nd': 1}, {'fam': 'W1', 'nd': 2}, {'fam': 'X1', 'kind': 'conv', 'exclude': 'name'}, {'fam': 'X1', 'kind': 'linear', 'exclude': 'type'},
               {'fam': 'D2', 'C': 2, 'cin': 2}, {'fam': 'K3', 'origins': ['f', 'f']}, {'fam': 'K3', 'origins': ['s', 'f']}, {'fam': 'H1'},
               # grouped convolution with a channel multiplier (groups = in_channels != out_channels): not a depthwise conv, it defines its own features
-              {'fam': 'W2', 'nd': 1, 'exclude': 'name'}, {'fam': 'W2', 'nd': 2, 'exclude': 'name'}]
+              {'fam': 'W2', 'nd': 1, 'exclude': 'name'}, {'fam': 'W2', 'nd': 2, 'exclude': 'name'},
+              # residual sum taken AFTER the flatten
+              {'fam': 'A2', 'nd': 1}, {'fam': 'A2', 'nd': 2}]
     if tier == 'thorough':
         progs += [{'fam': 'W2', 'nd': 1, 'exclude': 'name', 'mult': 3}, {'fam': 'W2', 'nd': 1, 'exclude': 'name', 'C': 3}]
         progs += [{'fam': 'K3', 'origins': ['f', 's']}, {'fam': 'K3', 'origins': ['s', 's']}, {'fam': 'K3', 'origins': ['f', 'f'], 'C': 3, 'cin': 2}]
